@@ -202,10 +202,14 @@ pub fn run_sched(cfg: &SchedCfg) -> RunStat {
   let lk = Lk::new(cfg.rw);
   let gen_ = hist::begin();
   hist::push(json!({"k":"new","kind": if cfg.rw {"rwlock"} else {"mutex"}}));
+  // PCT: the expected run length k is drawn per run (many races sit in the first few steps,
+  // others need a long prefix), d-1 priority change points fall uniformly in 1..k
+  let ks = [6u64, 12, 25, 50, 100, 200, 400];
+  let k = ks[((cfg.seed / 7) % ks.len() as u64) as usize];
   let strat = match cfg.strategy.as_str() {
-    "pct" => Strategy::Pct { d: 3, k: 100 },
-    "pct5" => Strategy::Pct { d: 5, k: 160 },
-    _ => Strategy::Random { p: 0.3 },
+    "pct" => Strategy::Pct { d: 2, k },
+    "pct5" => Strategy::Pct { d: 3, k },
+    _ => Strategy::Random { p: 0.25 },
   };
   let ctl = Ctl::new(cfg.threads, cfg.seed ^ 0x51ed270b, strat);
   ctl.set_noise(0.05, 0.0);
